@@ -5,6 +5,8 @@
 
      new <limit> <overflow>            fresh OverflowableBuffer(overflow), STRBUF_LIMIT = limit
      append <hex> | get <n> <0|1> | skip <n> <0|1> | len | getfile | close
+     fault <ctor-tmp|ctor-bio|copywrite> <one of the operations above>
+                                       the operation with an operating-system fault (Model: step_f)
      ronew <hex> <pos>                 ReadOnlyFileBasedBuffer(file) with file content / position
      prepare <size|none> | roget <n> <0|1> | roskip <n> | rolen | roclose *)
 open Model
@@ -26,7 +28,7 @@ let show (l : n list) : string =
   else Printf.sprintf "#%d:%s" len (Digest.to_hex (Digest.string (raw l)))
 
 let b01 b = if b then "1" else "0"
-let exn_s = function ValueErrorSkip -> "exn:skip" | ValueErrorClosed -> "exn:closed"
+let exn_s = function ValueErrorSkip -> "exn:skip" | ValueErrorClosed -> "exn:closed" | OSFault -> "exn:fault"
 let file_s (f : file) =
   Printf.sprintf "pos=%d closed=%s content=%s" (int_of_nat f.f_pos) (b01 f.f_closed) (show f.f_content)
 let out_s = function
@@ -58,13 +60,24 @@ let state_s () =
 let ro_s () =
   let b = !ro in Printf.sprintf "remain=%d %s" (int_of_z b.fb_remain) (file_s b.fb_file)
 
-let do_op (p : op) (sp : qop option) : string =
-  let (o', r) = step !limit !ovf !st p in
+let rec drop n l = if n <= 0 then l else match l with [] -> [] | _ :: t -> drop (n - 1) t
+
+let model_abs () = match rep_of !st with
+  | Str s -> s
+  | Bio (f, _) | Tmp (f, _) -> drop (int_of_nat f.f_pos) f.f_content
+
+let do_op_f (flt : fault) (p : op) (sp : qop option) : string =
+  let (o', r) = step_f flt !limit !ovf !st p in
   st := o';
-  let so = match sp with
-    | None -> "-"
-    | Some sp -> let (q', so) = q_step !q sp in q := q'; qout_s so in
+  let so = match r, flt with
+    | RExn OSFault, _ -> q := model_abs (); "-"     (* the specification has no faults: resynchronise *)
+    | _, _ ->
+      (match sp with
+       | None -> "-"
+       | Some sp -> let (q', so) = q_step !q sp in q := q'; qout_s so) in
   Printf.sprintf "%s | %s | spec=%s queue=%s" (out_s r) (state_s ()) so (show !q)
+
+let do_op = do_op_f FNone
 
 let do_ro (p : ro_op) : string =
   let (b', r) = ro_step !ro p in
@@ -73,16 +86,21 @@ let do_ro (p : ro_op) : string =
 
 let bool_of s = (s = "1")
 
-let () = main_loop (fun w -> match w with
+let rec handle flt w = match w with
   | ["new"; l; o] -> limit := n_of_dec l; ovf := n_of_dec o; st := o_new; q := q_empty; "ok | " ^ state_s ()
-  | ["append"; h] -> let s = bytes_of_hex h in do_op (OAppend s) (Some (QAppend s))
+  | "fault" :: kind :: rest ->
+    let f = match kind with
+      | "ctor-tmp" -> FCtor KTmp | "ctor-bio" -> FCtor KBio | "copywrite" -> FCopyWrite
+      | _ -> failwith "bad fault" in
+    handle f rest
+  | ["append"; h] -> let s = bytes_of_hex h in do_op_f flt (OAppend s) (Some (QAppend s))
   | ["get"; n; sk] ->
     let n = z_of_int (int_of_string n) in
-    if bool_of sk then do_op (OGet (n, true)) (Some (QTake n)) else do_op (OGet (n, false)) (Some (QPeek n))
-  | ["skip"; n; ap] -> let n = n_of_dec n in do_op (OSkip (n, bool_of ap)) (Some (QConsume n))
-  | ["len"] -> do_op OLen (Some QLength)
-  | ["getfile"] -> do_op OGetFile (Some QView)
-  | ["close"] -> do_op OClose None
+    if bool_of sk then do_op_f flt (OGet (n, true)) (Some (QTake n)) else do_op_f flt (OGet (n, false)) (Some (QPeek n))
+  | ["skip"; n; ap] -> let n = n_of_dec n in do_op_f flt (OSkip (n, bool_of ap)) (Some (QConsume n))
+  | ["len"] -> do_op_f flt OLen (Some QLength)
+  | ["getfile"] -> do_op_f flt OGetFile (Some QView)
+  | ["close"] -> do_op_f flt OClose None
   | ["ronew"; h; p] ->
     ro := ro_init { f_content = bytes_of_hex h; f_pos = nat_of_int (int_of_string p); f_closed = false };
     "ok | " ^ ro_s ()
@@ -95,4 +113,6 @@ let () = main_loop (fun w -> match w with
   | ["roskip"; n] -> do_ro (ROSkip (n_of_dec n))
   | ["rolen"] -> do_ro ROLen
   | ["roclose"] -> ro := fb_close !ro; "unit | " ^ ro_s ()
-  | _ -> "ERR bad command")
+  | _ -> "ERR bad command"
+
+let () = main_loop (handle FNone)
